@@ -3,7 +3,8 @@
 //! What is printed must equal the MODEL column byte for byte, so only model-comparable quantities
 //! are printed:
 //!  * mode T / R: `TlsClientHelloReader::buffer_len()` (public accessor), summed over the readers of
-//!    the harness-owned `TtlCache<FlowKey, TlsClientHelloReader>`;
+//!    the harness-owned `TtlCache<FlowKey, TlsClientHelloReader>`; plus a direct oracle `!retained ...` when a
+//!    reader holds more than 65539 bytes + the largest segment/chunk seen (mode R: while no parse error was returned);
 //!  * mode U: number of records in the harness-owned tracker cache (`iter().count()`);
 //!  * mode H: `TcpFlow`'s fields are private, so the harness keeps a SHADOW of what the flow table
 //!    must hold, derived only from the packets it sent and the reports it got back (stored bytes and
@@ -169,6 +170,7 @@ fn run_t(cap: usize, items: &[&str]) -> String {
     let mut keys: Vec<FlowKey> = Vec::new();
     let mut buf: Vec<u8> = Vec::with_capacity(70000);
     let mut out = Vec::new();
+    let (mut bad, mut max_chunk, mut pkt_index): (Option<String>, u64, usize) = (None, 0, 0);
     for t in items {
         let (is_macro, evs) = parse_item(t);
         let (mut somes, mut last) = (0u64, (String::from("-"), 0u64));
@@ -183,12 +185,20 @@ fn run_t(cap: usize, items: &[&str]) -> String {
                 match process_ipv4_packet(&pkt, &mut flows) { Ok(None) => "-", Ok(Some(_)) => "S", Err(_) => "E" }
             };
             let retained: u64 = keys.iter().map(|k| flows.get(k).map(|r| r.buffer_len() as u64).unwrap_or(0)).sum();
+            // impl-level oracle: no reader of the flow table may hold more than one pending record plus this segment
+            max_chunk = max_chunk.max(e.pay.len() as u64);
+            if bad.is_none() {
+                if let Some(big) = keys.iter().filter_map(|k| flows.get(k).map(|r| r.buffer_len() as u64)).find(|&n| n > 65539 + max_chunk) {
+                    bad = Some(format!("retained: packet {}: a reader holds {} bytes > 65539 + largest segment {}", pkt_index, big, max_chunk));
+                }
+            }
+            pkt_index += 1;
             if kind == "S" { somes += 1; }
             last = (kind.to_string(), retained);
         }
         out.push(if is_macro { format!("{}x:{}", somes, last.1) } else { format!("{}:{}", last.0, last.1) });
     }
-    out.join(" ")
+    match bad { Some(m) => format!("{}\t!{}", out.join(" "), m), None => out.join(" ") }
 }
 
 // ---------------------------------------------------------------- mode R
@@ -196,19 +206,30 @@ fn run_r(items: &[&str]) -> String {
     use huginn_net_tls::TlsClientHelloReader;
     let mut reader = TlsClientHelloReader::new();
     let mut out = Vec::new();
+    // impl-level oracle: while no parse error was returned the reader holds at most one pending record plus one chunk
+    let (mut bad, mut max_chunk, mut errored, mut idx): (Option<String>, usize, bool, usize) = (None, 0, false, 0);
+    let mut feed = |reader: &mut TlsClientHelloReader, c: &[u8]| -> &'static str {
+        let k = match reader.add_bytes(c) { Ok(Some(_)) => "S", Ok(None) => "N", Err(_) => { if reader.buffer_len() > 0 { errored = true; } "E" } };
+        max_chunk = max_chunk.max(c.len());
+        if bad.is_none() && !errored && reader.buffer_len() > 65539 + max_chunk {
+            bad = Some(format!("retained: chunk {}: buffer_len {} > 65539 + largest chunk {}", idx, reader.buffer_len(), max_chunk));
+        }
+        idx += 1;
+        k
+    };
     for t in items {
         let w: Vec<&str> = t.split('*').collect();
         if w.len() == 1 {
-            let k = match reader.add_bytes(&unhex_or_dash(w[0])) { Ok(Some(_)) => "S", Ok(None) => "N", Err(_) => "E" };
+            let k = feed(&mut reader, &unhex_or_dash(w[0]));
             out.push(format!("{}:{}", k, reader.buffer_len()));
         } else {
             let tpl = unhex(w[0]); let cnt: usize = w[1].parse().unwrap(); let size: usize = w[2].parse().unwrap();
             let mut somes = 0;
-            for i in 0..cnt { if let Ok(Some(_)) = reader.add_bytes(&cycle(&tpl, i * size, size)) { somes += 1; } }
+            for i in 0..cnt { if feed(&mut reader, &cycle(&tpl, i * size, size)) == "S" { somes += 1; } }
             out.push(format!("{}x:{}", somes, reader.buffer_len()));
         }
     }
-    out.join(" ")
+    match bad { Some(m) => format!("{}\t!{}", out.join(" "), m), None => out.join(" ") }
 }
 
 // ---------------------------------------------------------------- mode U
@@ -251,6 +272,38 @@ fn client_hello() -> Vec<u8> {
 }
 fn server_hello_done() -> Vec<u8> { vec![0x16, 0x03, 0x03, 0x00, 0x04, 0x0e, 0x00, 0x00, 0x00] }
 fn garbage_handshake(r: &mut Rng) -> Vec<u8> { let n = r.range(1, 40) as usize; let mut v = vec![0x16, 0x03, 0x03, 0, n as u8, 0xff]; v.extend((1..n).map(|_| r.next() as u8)); v }
+
+/// complete handshake records without a ClientHello that tls-parser accepts (the shapes Extract/EC11.v knows):
+/// ServerHello, Certificate, ServerKeyExchange, ServerHelloDone, ServerHello+ServerHelloDone in one record, all four in one record
+fn other_records() -> Vec<Vec<u8>> {
+    ["160303002a020000260303202122232425262728292a2b2c2d2e2f303132333435363738393a3b3c3d3e3f00130100",
+     "160303000b0b000007000004000001aa", "160303000c0c00000803001d0401020304", "16030300040e000000",
+     "160303002e020000260303202122232425262728292a2b2c2d2e2f303132333435363738393a3b3c3d3e3f001301000e000000",
+     "1603030045020000260303202122232425262728292a2b2c2d2e2f303132333435363738393a3b3c3d3e3f001301000b000007000004000001aa0c00000803001d04010203040e000000"]
+        .iter().map(|h| unhex(h)).collect()
+}
+/// records of other content types (alert, change_cipher_spec, application data); no byte 0x16 inside
+fn non_handshake_records(r: &mut Rng) -> Vec<Vec<u8>> {
+    let mut app = vec![0x17, 0x03, 0x03, 0x00, 0x18]; app.extend(no16(r.bytes(24)));
+    vec![vec![0x15, 0x03, 0x03, 0x00, 0x02, 0x01, 0x00], vec![0x14, 0x03, 0x03, 0x00, 0x01, 0x01], app]
+}
+/// one segment = 2..6 complete records; the first is always a handshake record.  kind 0: non-ClientHello handshake records
+/// only; 1: ClientHello then more records; 2: handshake records then alert/CCS/application data; 3: records + a partial record
+fn multi_record_segment(r: &mut Rng, kind: u64) -> Vec<u8> {
+    let others = other_records(); let nonhs = non_handshake_records(r); let ch = client_hello();
+    let k = r.range(2, 6) as usize;
+    let mut seg: Vec<u8> = Vec::new();
+    for i in 0..k {
+        let rec: Vec<u8> = match kind {
+            1 if i == 0 => ch.clone(),
+            2 if i >= 1 && r.chance(2, 3) => r.pick(&nonhs).clone(),
+            _ => r.pick(&others).clone(),
+        };
+        seg.extend(rec);
+    }
+    if kind == 3 { let p = r.pick(&others).clone(); let cut = r.range(1, p.len() as u64 - 1) as usize; seg.extend(&p[..cut]); }
+    seg
+}
 
 /// application-data filler must never make a chunk start with the handshake type byte
 fn no16(mut v: Vec<u8>) -> Vec<u8> { for b in v.iter_mut() { if *b == 0x16 { *b = 0x15; } } v }
@@ -377,6 +430,41 @@ fn gen(r: &mut Rng, tier: &Tier, out: &mut Vec<String>) {
         out.push(format!("R 1 {}*{}*1400", hex(&huge), tier.scale(200, 400)));   // kept after the parse error: the model copies the buffer per chunk
         let err = { let mut v = vec![0x16, 0x03, 0x03, 0x00, 0x00]; v.extend(template(&[0x00], long_tpl)); v };
         out.push(format!("R 1 {}*{}*5", hex(&err), tier.scale(2000, 5000)));
+    }
+    // ---------------- R / T: segments that carry several complete records (any retained tail must show as growth) ----------------
+    // short runs, every kind, reader alone and analyzer (either direction); segments are delivered whole (a cut inside the
+    // ClientHello's random field could start a chunk with byte 0x16 and splice a record the toy parser does not know)
+    for i in 0..tier.scale(240, 2400) {
+        let kind = (i % 4) as u64;
+        let nseg = r.range(1, 6) as usize;
+        let mut rs = String::from("R 1"); let mut ts = format!("T {}", *r.pick(&[1usize, 2, 1000]));
+        let d = if r.chance(1, 2) { "c" } else { "s" };
+        let mut seq = 1u32;
+        for _ in 0..nseg {
+            let seg = multi_record_segment(r, kind);
+            let reps = r.range(1, 4) as usize;
+            if r.chance(1, 2) { rs.push_str(&format!(" {}*{}*{}", hex(&seg), reps, seg.len())); ts.push_str(&format!(" 1{}*{}*{}:PA:{}:{}", d, reps, seg.len(), seq, hex(&seg))); }
+            else { rs.push_str(&format!(" {}", hex(&seg))); ts.push_str(&format!(" 1{}:PA:{}:{}", d, seq, hex(&seg))); }
+            seq = seq.wrapping_add(10000);
+        }
+        out.push(rs); out.push(ts);
+    }
+    // long runs: 10^3..10^4 (thorough 3*10^4) identical multi-record segments on one connection
+    let runs: Vec<usize> = if tier.thorough { vec![1000, 3000, 10000, 30000] } else { vec![1000, 3000, 10000] };   // the model materialises a macro's chunks: 3*10^4 x ~300 B is ~200 MB
+    for &count in &runs {
+        for kind in 0..4u64 {
+            let seg = multi_record_segment(r, kind);
+            // the template repeats the segment until it is long (keeps the case out of the in-Coq sample); chunk size = one segment
+            let mut tpl = Vec::new(); while tpl.len() < long_tpl { tpl.extend_from_slice(&seg); }
+            out.push(format!("R 1 {}*{}*{}", hex(&tpl), count, seg.len()));
+            let d = if kind % 2 == 0 { "s" } else { "c" };
+            out.push(format!("T {} 1{}*{}*{}:PA:1:{}", *r.pick(&[1usize, 1000]), d, count, seg.len(), hex(&tpl)));
+        }
+        // ServerHello + ServerHelloDone per segment, exactly the shape of a TLS 1.2 server flight
+        let o = other_records(); let mut seg = o[0].clone(); seg.extend(&o[1]); seg.extend(&o[3]);
+        let mut tpl = Vec::new(); while tpl.len() < long_tpl { tpl.extend_from_slice(&seg); }
+        out.push(format!("R 1 {}*{}*{}", hex(&tpl), count, seg.len()));
+        out.push(format!("T 1000 1s*{}*{}:PA:1:{}", count, seg.len(), hex(&tpl)));
     }
     // ---------------- U: uptime tracker ----------------
     for _ in 0..tier.scale(200, 2000) {
